@@ -710,8 +710,62 @@ def r12_protocol(run, F):
         run.ob("R12-ERRORS-IFF", fn, ok, F.where(b), "errors() must return None exactly when the error vector is empty")
 
 
+def r13_asserted_capacity(run, F):
+    """finish_declaration pushes behind `assert!(len < capacity)`: the declaration list is never grown, so its pre-allocation
+    is a *hard* bound.  For every field of ParseTree whose push is guarded by such an assertion, the with_capacity argument
+    in ParseTree::empty must be the count the caller computed, not a reduced one: its backward slice contains the caller's
+    parameter and no min / clamp / saturating / division (the error list, which drops pushes beyond its cap, may)."""
+    from rules import origins
+    PT = "delta::parser::parse_tree::"
+    guarded = set()
+    for p, b in F.lib.bodies.items():
+        if not p.startswith(PT + "ParseBuffer::") or "hir" not in b:
+            continue
+        asserts_on = set()
+        for n in walk(b["hir"]):
+            if n.get("k") == "Binary" and n.get("op") == "Lt":
+                l, r = hirq.unwrap_trivial(n["lhs"]), hirq.unwrap_trivial(n["rhs"])
+                if l.get("k") == "MethodCall" and l.get("name") == "len" and r.get("k") == "MethodCall" and r.get("name") == "capacity":
+                    fl, fr = hirq.unwrap_trivial(l["recv"]), hirq.unwrap_trivial(r["recv"])
+                    if fl.get("k") == "Field" and fr.get("k") == "Field" and fl.get("name") == fr.get("name"):
+                        asserts_on.add(fl["name"])
+        has_assert = any(hirq.panic_kind(c) == "assert" for c in hirq.calls(b["hir"]))
+        returns_early = any(n.get("k") == "Ret" for n in walk(b["hir"]))
+        if has_assert and not returns_early:
+            guarded |= asserts_on
+    run.require("declarations" in guarded, "the asserted push of ParseBuffer (finish_declaration) was not found; guarded fields: %s" % sorted(guarded))
+    e = F.body(PT + "ParseTree::empty")
+    params = [q.get("name") for q in e.get("params", [])]
+    for p, node in hirq.constructs(e["hir"]):
+        if node.get("k") != "Struct" or not p.endswith("ParseTree"):
+            continue
+        for f in node["fields"]:
+            if f["name"] not in guarded:
+                continue
+            caps = []
+            o = origins.origins(e["hir"], f["e"], e.get("params", ()))
+            for c in hirq.calls(e["hir"]):
+                if (hirq.callee(c) or "").endswith("with_capacity") and ("call", hirq.callee(c)) in o:
+                    caps.append(c)
+            # the with_capacity call this field is initialised from: the one whose result reaches the field
+            ok_any = False
+            detail = "no with_capacity call reaches the field"
+            for c in caps:
+                oc = origins.origins(e["hir"], c["a"][0], e.get("params", ()))
+                if not any(k == ("param", params[1]) for k in oc if len(params) > 1):
+                    continue
+                reducing = sorted(str(k[1]).split("::")[-1] for k in oc if k[0] == "call" and str(k[1]).split("::")[-1] in (
+                    "min", "clamp", "saturating_sub", "checked_sub", "div", "shr", "isqrt"))
+                ok_any = not reducing
+                detail = "capacity derives from %s; reducing operations: %s" % (sorted(map(str, oc)), reducing)
+            run.ob("R13-ASSERTED-CAPACITY", "ParseTree.%s" % f["name"], ok_any, F.where(e, node),
+                   "pushes onto `%s` assert len < capacity, so the pre-allocation must be the caller's bound unreduced: %s" % (f["name"], detail))
+    run.floor("R13-ASSERTED-CAPACITY", 1, "asserted never-grown vectors of ParseTree (declarations)")
+
+
 def check(run):
     F = run.facts("A")
+    r13_asserted_capacity(run, F)
     r1_unsafe(run, F)
     r2_counters(run, F)
     r4_node_budget(run, F)
